@@ -170,10 +170,9 @@ class Bits(Mapping):
         self.variable = variable
         self.read()
 
-    @staticmethod
-    def _get_bits(key):
+    def _get_bits(self, key):
         if isinstance(key, slice):
-            bits = range(key.start, key.stop, key.step)
+            bits = range(*key.indices(len(self.variable.od)))
         elif isinstance(key, int):
             bits = [key]
         else:
